@@ -65,6 +65,7 @@ type gen struct {
 	lineSeq int
 	faults  int
 	total   int
+	outlier string // one size dimension blown up in this world ("" = none): thresholds must not hide behind small worlds
 	vars    [3][]string
 	jvars   []string
 }
@@ -89,11 +90,25 @@ func (g *gen) word() string {
 
 var titlePool = []string{"Start", "N1", "N2", "Shop", "End_1", "n", "Übung", "Node5", "a1", "Z"}
 
+// drawOutlier decides (in ~8 % of the worlds) which one size dimension goes far beyond its usual bound.
+func (g *gen) drawOutlier() {
+	if g.tp.Chance(8, "outlier") {
+		g.outlier = []string{"options", "elseifs", "tags", "inlines", "nodes", "words", "stmts", "rounds"}[g.tp.Int(0, 7, "outlierkind")]
+	}
+}
+
 func (g *gen) genTitles() {
+	g.drawOutlier()
 	n := g.tp.Int(1, g.cfg.MaxNodes, "nodes")
+	if g.outlier == "nodes" {
+		n = g.tp.Int(9, 14, "manynodes")
+	}
 	perm := g.tp.Int(0, 5, "titleperm")
 	for i := 0; i < n; i++ {
 		t := titlePool[(i+perm)%len(titlePool)]
+		if i >= len(titlePool) {
+			t = fmt.Sprintf("Extra%d", i)
+		}
 		if !g.cfg.NonASCII && t == "Übung" {
 			t = "Ubung"
 		}
@@ -178,6 +193,10 @@ func (g *gen) body(depth int) []*Stmt {
 	budget := g.cfg.MaxTotal
 	if budget == 0 {
 		budget = 40
+	}
+	if g.outlier == "stmts" && depth == 0 && g.tp.Chance(40, "manystmts") {
+		n = g.tp.Int(9, 20, "nmanystmts") // a long flat body
+		budget += 30
 	}
 	var out []*Stmt
 	for i := 0; i < n; i++ {
@@ -327,6 +346,9 @@ func (g *gen) lineS(isOption bool) *LineS {
 	l := &LineS{}
 	id := fmt.Sprintf("%s%d", prefix, g.lineSeq)
 	nw := g.tp.Int(0, 3, "nwords")
+	if g.outlier == "words" && g.tp.Chance(30, "manywords") {
+		nw = g.tp.Int(10, 40, "nmanywords")
+	}
 	text := id
 	for i := 0; i < nw; i++ {
 		text += " " + g.word()
@@ -348,6 +370,9 @@ func (g *gen) lineS(isOption bool) *LineS {
 	}
 	if g.tp.Chance(g.cfg.InlinePct, "inline") {
 		k := g.tp.Int(1, 2, "ninline")
+		if g.outlier == "inlines" {
+			k = g.tp.Int(3, 7, "manyinlines")
+		}
 		for i := 0; i < k; i++ {
 			ty := []byte{'n', 'b', 's'}[g.tp.Int(0, 2, "inlinety")]
 			l.Parts = append(l.Parts, Part{Text: " "}, Part{E: g.expr(ty, g.cfg.ExprDepth)})
@@ -358,6 +383,9 @@ func (g *gen) lineS(isOption bool) *LineS {
 	}
 	if g.tp.Chance(g.cfg.TagPct, "tags") {
 		k := g.tp.Int(1, 2, "ntags")
+		if g.outlier == "tags" {
+			k = g.tp.Int(3, 6, "manytags")
+		}
 		for i := 0; i < k; i++ {
 			l.Tags = append(l.Tags, []string{"t1", "line:0a1b", "mood", "x-2"}[g.tp.Int(0, 3, "tag")])
 		}
@@ -393,6 +421,9 @@ func (g *gen) randLine() *Stmt {
 
 func (g *gen) options(depth int) *Stmt {
 	n := g.tp.Int(1, 4-min(depth, 2), "nopts")
+	if g.outlier == "options" && depth == 0 && g.tp.Chance(50, "manyopts") {
+		n = g.tp.Int(5, 11, "nmanyopts")
+	}
 	s := &Stmt{K: sOptions}
 	for i := 0; i < n; i++ {
 		o := &Option{Line: g.lineS(true)}
@@ -410,6 +441,9 @@ func (g *gen) options(depth int) *Stmt {
 func (g *gen) ifStmt(depth int) *Stmt {
 	s := &Stmt{K: sIf}
 	nElseIf := g.tp.Int(0, 2, "nelseif")
+	if g.outlier == "elseifs" && g.tp.Chance(50, "manyelseifs") {
+		nElseIf = g.tp.Int(4, 9, "nmanyelseifs")
+	}
 	for i := 0; i <= nElseIf; i++ {
 		s.Clauses = append(s.Clauses, &Clause{Cond: g.expr('b', g.cfg.ExprDepth), Body: g.body(depth + 1)})
 	}
@@ -864,6 +898,7 @@ func (g *gen) ensureYieldingCycles(p *Program) {
 // room nodes that jump back. The same statements therefore run repeatedly under
 // different state - the shape on which per-statement caches and missed resets show.
 func (g *gen) hubProgram() *Program {
+	g.drawOutlier()
 	k := g.tp.Int(2, 3, "rooms")
 	g.titles = []string{"Start", "Hub"}
 	for i := 1; i <= k; i++ {
@@ -890,6 +925,9 @@ func (g *gen) hubProgram() *Program {
 
 	hub := &Node{Title: "Hub"}
 	rounds := g.tp.Int(2, 4, "rounds")
+	if g.outlier == "rounds" {
+		rounds = g.tp.Int(12, 40, "manyrounds") // a long run over few statements
+	}
 	hub.Body = append(hub.Body, &Stmt{K: sSet, Var: cnt, Op: "+=", E: numLit(1)})
 	hub.Body = append(hub.Body, &Stmt{K: sIf, Clauses: []*Clause{{Cond: g.bin(">", &Expr{K: eVar, S: cnt}, numLit(float64(rounds))), Body: []*Stmt{g.line(), {K: sStop}}}}})
 	hub.Body = append(hub.Body, g.body(1)...)
